@@ -14,6 +14,9 @@ def dispatch(prop, tier):
     if prop in ("C02", "C10", "C15", "C16"):
         from . import check_runner
         return check_runner.run(prop, tier)
+    if prop in ("C01", "C03", "C13", "C14"):
+        from . import check_version
+        return check_version.run(prop, tier)
     if prop == "C17":
         from . import check_part
         return check_part.run(prop, tier)
